@@ -558,6 +558,22 @@ async fn direct(plan: Plan, world: Shared) -> RunOutput {
     }
 
     // --- quiescence epilogue -------------------------------------------------------------------
+    // quiescence = 60 s after the last *planned* activity: callers are done, and every planned
+    // change event and time-triggered fault lies in the past
+    let last_planned = plan
+        .changes
+        .iter()
+        .map(|c| c.at_ms)
+        .chain(plan.faults.iter().filter_map(|f| match f.trigger {
+            crate::session::plan::Trigger::AtTime(t) => Some(t),
+            _ => None,
+        }))
+        .max()
+        .unwrap_or(0);
+    let now_ms = world.lock().unwrap_or_else(|e| e.into_inner()).now_ms();
+    if last_planned >= now_ms {
+        tokio::time::sleep(Duration::from_millis(last_planned - now_ms + 1)).await;
+    }
     tokio::time::sleep(QUIESCENCE).await;
     let (quiescence_seq, idle_at_quiescence, ended) = {
         let mut w = world.lock().unwrap_or_else(|e| e.into_inner());
